@@ -22,6 +22,78 @@ theorem h5GetByIdOrName_eq (g : Graph) (c : Cont) (x : String) :
   · simp
   · cases h : getById g c.node x <;> simp [h]
 
+/-- `H5Group.get_by_name` -/
+theorem h5GetByName_eq (g : Graph) (c : Cont) (x : String) :
+    Gen.h5GetByName.evalLookup g c (.str x) = some (getByName g c.node x) := by
+  unfold Gen.h5GetByName getByName cLinks
+  simp only [DT.evalLookup, testVal, retLookup]
+  cases hn : c.node with
+  | none => simp
+  | some k =>
+    simp only [Option.isSome_some, cond_true]
+    cases hf : (g.links k).find? (fun l => l.1 == x) with
+    | none =>
+      have : (g.links k).any (fun l => l.1 == x) = false := by
+        rw [Bool.eq_false_iff]; intro ht
+        obtain ⟨l, hl, e⟩ := List.any_eq_true.mp ht
+        exact absurd hf (by
+          intro hnone
+          have := List.find?_eq_none.mp hnone l hl
+          exact this e)
+      simp [this]
+    | some l =>
+      have : (g.links k).any (fun l => l.1 == x) = true :=
+        List.any_eq_true.mpr ⟨l, List.mem_of_find?_eq_some hf, by have := List.find?_some hf; exact this⟩
+      simp [this]
+
+/-- `H5Group.get_by_id` -/
+theorem h5GetById_eq (g : Graph) (c : Cont) (x : String) :
+    Gen.h5GetById.evalLookup g c (.str x) = some (getById g c.node x) := by
+  unfold Gen.h5GetById getById
+  simp only [DT.evalLookup, testVal, retLookup]
+  cases hn : c.node with
+  | none => simp [cLinks]
+  | some k =>
+    simp only [Option.isSome_some, cond_true]
+    cases hf : (cLinks g (some k)).find? (fun l => g.entityId l.2 == some x) with
+    | none =>
+      have : (cLinks g (some k)).any (fun l => g.entityId l.2 == some x) = false := by
+        rw [Bool.eq_false_iff]; intro ht
+        obtain ⟨l, hl, e⟩ := List.any_eq_true.mp ht
+        exact absurd hf (by
+          intro hnone
+          have := List.find?_eq_none.mp hnone l hl
+          exact this e)
+      simp [this]
+    | some l =>
+      have : (cLinks g (some k)).any (fun l => g.entityId l.2 == some x) = true :=
+        List.any_eq_true.mpr ⟨l, List.mem_of_find?_eq_some hf, by have := List.find?_some hf; exact this⟩
+      simp [this]
+
+/-- `H5Group.__contains__`: a link of that name in the (existing) group -/
+theorem h5Contains_eq (g : Graph) (c : Cont) (x : String) :
+    Gen.h5Contains.evalHas g c (.str x) = some (.ok (getByName g c.node x).isSome) := by
+  unfold Gen.h5Contains getByName cLinks
+  simp only [DT.evalHas, testVal, retHas]
+  cases hn : c.node with
+  | none => simp
+  | some k =>
+    simp only [Option.isNone_some, cond_false]
+    cases hf : (g.links k).find? (fun l => l.1 == x) with
+    | none =>
+      have : (g.links k).any (fun l => l.1 == x) = false := by
+        rw [Bool.eq_false_iff]; intro ht
+        obtain ⟨l, hl, e⟩ := List.any_eq_true.mp ht
+        exact absurd hf (by
+          intro hnone
+          have := List.find?_eq_none.mp hnone l hl
+          exact this e)
+      simp [this]
+    | some l =>
+      have : (g.links k).any (fun l => l.1 == x) = true :=
+        List.any_eq_true.mpr ⟨l, List.mem_of_find?_eq_some hf, by have := List.find?_some hf; exact this⟩
+      simp [this]
+
 /-- `Container.__contains__` on owning containers, keys: entity objects and str -/
 theorem containerContains_eq (g : Graph) (c : Cont) (hpl : isPlainLike c.info.flavour = true) (key : Key)
     (hkey : ∀ i, key ≠ .pos i) :
